@@ -1279,6 +1279,14 @@ class Engine:
         return i  # symbolic indices are required to be non-negative (safety obligation)
 
     # -- calls --------------------------------------------------------------------
+    def _exc_not_none(self, exc, st):
+        """``except ... as e``: the exception object bound to e is an object, never None"""
+        try:
+            t = self.to_v(exc)
+        except Exception:
+            return st
+        return st.assume(t != NONE)
+
     def ev_Call(self, e, st, fr, k):
         from . import library
         return library.call(self, e, st, fr, k)
@@ -1998,6 +2006,7 @@ class Engine:
                     s3 = st2
                     if h.name:
                         s3 = s3.bind(h.name, exc)
+                        s3 = self._exc_not_none(exc, s3)
                     s3 = St(s3.env, s3.heap, s3.pc, {**s3.ghost, "#handling": exc})
 
                     def done(s4, _prev=st2.ghost.get("#handling")):
@@ -2009,7 +2018,7 @@ class Engine:
                     # unknown exception class: it may or may not match; explore both
                     tag = self.fresh("exc_matches", "bool")
                     s_yes = st2.assume(tag)
-                    s3 = s_yes.bind(h.name, exc) if h.name else s_yes
+                    s3 = self._exc_not_none(exc, s_yes.bind(h.name, exc)) if h.name else s_yes
                     s3 = St(s3.env, s3.heap, s3.pc, {**s3.ghost, "#handling": exc})
                     self.ex(h.body, s3, fr_out, after)
                     st2 = st2.assume(z3.Not(tag))
